@@ -175,6 +175,12 @@ func (s *session) logEv(ev Event, f func(ev *Event)) {
 	if f != nil {
 		f(&ev)
 	}
+	// a run of identical ticker frames (ka / ping / pong every millisecond) is logged once: the
+	// frames change no state, and Ws checks the same guard for each of them
+	if n := len(s.events); ev.E == "CRecv" && (ev.M == "ka" || ev.M == "ping" || ev.M == "pong") && n > 0 && s.events[n-1] == ev {
+		s.mu.Unlock()
+		return
+	}
 	s.apply(&ev)
 	s.events = append(s.events, ev)
 	s.mu.Unlock()
@@ -768,7 +774,7 @@ func transportGoroutines() (int, string) {
 func runScenario(sc *Scenario) *Result {
 	t0 := time.Now()
 	s := &session{sc: sc, inst: map[string]*instState{}, sources: map[string]*source{}, cendCh: make(chan struct{}),
-		changed: make(chan struct{}, 1), unit: time.Second}
+		changed: make(chan struct{}, 1), unit: time.Second, initFn: "none"}
 	if sc.Long { // confirmation rerun of a whole scenario: 3x on top (first look 6 s, second look 60 s)
 		s.unit = 3 * time.Second
 	}
